@@ -33,7 +33,7 @@ MANIFEST_ENTRY = {
         "(VOD $Time$ with irregular durations) is an open ledger entry. A styp/emsg between fragments is outside "
         "the tiling hypothesis (witness in Props/C06.lean). mediaPresentationDuration text is proved under C19; "
         "here it is compared to the millisecond end to end. Trusted: Lean kernel, harness, driver, mp4walk, mp4synth, shims."),
-    "technique": "Lean 4 proof (case analysis, induction over the timeline loop and over the box list) + model/implementation correspondence",
+    "technique": "Lean 4 proof (case analysis, induction over the timeline loop and over the box list) + source-to-Lean translation re-proved equal to the model each run + model/implementation correspondence",
 }
 PROP_FILES = ["DashLive/Props/C06.lean", "DashLive/Props/GenTie.lean", "DashLive/Props/GenTieTimeline.lean", "DashLive/Props/GenTieLiveIndex.lean", "DashLive/Props/Generated.lean"]
 LEAN_TARGETS = ["DashLive.Props.C06", "DashLive.Props.GenTie", "DashLive.Props.GenTieTimeline", "DashLive.Props.GenTieLiveIndex", "DashLive.Props.Generated"]
@@ -49,7 +49,8 @@ def _gen_arith():
     gen_liveindex.main()
 
 GENERATORS = [_gen_arith]
-TRUSTED = ["harness/mp4walk.py, harness/mp4synth.py, harness/segwalk.py, /verif/shims"]
+TRUSTED = [
+    "harness/gen_arith.py, gen_timeline.py, gen_liveindex.py, pytolean.py: Python source text -> Lean translation of get_segment_index, generateSegmentTimeline and the media handler index calculation (semantics of the accepted subset, see DESIGN 4); Props/GenTie*.lean prove the translated definitions equal to the model","harness/mp4walk.py, harness/mp4synth.py, harness/segwalk.py, /verif/shims"]
 ASSUMPTIONS = [
     "VOD $Time$ oracle/generators restricted to tracks satisfying the regular-duration hypothesis (D11 is replayed from the ledger)",
     "N of 'numbers startNumber..startNumber+N-1' is the number of stored media segments",
